@@ -74,6 +74,7 @@ def machine(idx, extra_contracts=(), loop_bound=64, timeout_s=None, rope='contra
     tab = list(extra_contracts) + [(p, f) for (p, f) in _contracts.table() if not (rope == 'real' and f.__name__.startswith('c_rope'))]
     m = Machine(idx, tab, loop_bound=loop_bound, timeout_s=timeout_s)
     m.overflow_checks = idx.flavour == 'mir'
+    m.rope_real = rope == 'real'
     return m
 
 
